@@ -64,6 +64,15 @@ impl Monitor for C16 {
         vec!["service_needed_compared", "n_jobs_variants_compared", "per_component_variants_compared"]
     }
 
+    fn unguarded_library_failure(&self, c: &crate::framework::Caught, rep: &mut CaseReport) -> bool {
+        // this property's objects must answer every query: a library panic / runaway loop that surfaces
+        // outside a guarded call (e.g. while the monitor inspects the shared cache) is a violation too
+        rep.violation(
+            format!("C16 kind=library-{}-outside-a-guarded-call class={}", c.kind, c.class()),
+            crate::jobj! {"caught" => c.to_json(), "case" => rep.sample.clone()},
+        );
+        true
+    }
     fn run_case(&self, _index: u64, seed: u64, _tier: Tier, rep: &mut CaseReport) {
         let mut rng = Rng::new(seed);
         let g = ArrGen { scale: *rng.pick(&[3u64, 10, 40]), allow_never: true, allow_prefix: false, allow_composite: true, allow_curve: true, max_jitter_factor: 3 };
@@ -77,6 +86,8 @@ impl Monitor for C16 {
         };
         let nparts = match shape {
             Shape::Single | Shape::RefAndRc => 1,
+            // (one composite in 25 has many components)
+            _ if rng.chance(1, 25) => rng.usize(17, 24),
             _ => rng.usize(1, 4),
         };
         let parts: Vec<Part> = (0..nparts).map(|_| Part { arr: g.any(&mut rng, 1), cost: gen_cost_z(&mut rng, 15) }).collect();
